@@ -11,6 +11,7 @@ B == <<"b">>
 PubsFlat == {A, AB, B}
 PubsNested == {A, AB, A_B}
 PubsTwo == {A, A_B}
+PubsFlat2 == {A, AB}
 
 \* URIs: a/x (only a), ab/x (only ab; a string-prefix check without the
 \* slash would let "a" in), a/b/x (a and a/b), b/x (only b), x (nobody)
